@@ -71,13 +71,15 @@ def main():
         broken.append(("correspondence", d["suite"], "first difference: %s" % json.dumps(d["diff"])))
 
     # ---- widen the search when something is broken but no monitor failed ----------------------------
-    if broken and not ctx.monitor_failures and can_run_impl:
+    def relevant_failures():
+        return [mf for mf in ctx.monitor_failures if ":" not in mf["clause"] or mf["clause"].startswith(prop + ":")]
+    if broken and not relevant_failures() and can_run_impl:
         ctx.widen = True
         for k in range(1, 6):
             ctx.seed = seed + 7919 * k
             for suite in spec["suites"]:
                 suite(ctx, can_run_model)
-            if ctx.monitor_failures:
+            if relevant_failures():
                 break
         ctx.seed = seed
 
@@ -86,7 +88,9 @@ def main():
     violations = 0
     lines = []
     unmatched = []
-    for mf in ctx.monitor_failures:
+    # a monitor clause "Cxx:name" belongs to property Cxx; unprefixed clauses belong to the property being checked
+    relevant = [mf for mf in ctx.monitor_failures if ":" not in mf["clause"] or mf["clause"].startswith(prop + ":")]
+    for mf in relevant:
         k = suites.match_known(mf, known)
         if k is None:
             unmatched.append(mf)
@@ -107,7 +111,8 @@ def main():
             "property": prop, "kind": "no-failing-input-found",
             "no_longer_checks": [{"kind": k, "name": n, "detail": dt} for k, n, dt in broken],
             "smallest_disagreement": d, "seed": seed,
-            "searched": {"scenarios": ctx.evaluations, "monitor_clauses": sorted(ctx.clauses)}})
+            "searched": {"scenarios": ctx.evaluations,
+                         "monitor_clauses": sorted(c for c in ctx.clauses if ":" not in c or c.startswith(prop + ":"))}})
         lines.append("VIOLATION property=%s replay=%s no-failing-input-found" % (prop, os.path.relpath(path, ROOT)))
         violations = 1
 
@@ -127,8 +132,9 @@ def main():
         "samples": ctx.samples[:3],
         "traces_validated_against_impl": ctx.validated,
         "disagreements_model_vs_impl": len(ctx.disagreements),
-        "monitor_failures": len(ctx.monitor_failures),
-        "monitor_clauses": sorted(ctx.clauses),
+        "monitor_failures": len(relevant),
+        "monitor_failures_other_properties": len(ctx.monitor_failures) - len(relevant),
+        "monitor_clauses": sorted(c for c in ctx.clauses if ":" not in c or c.startswith(prop + ":")),
         "known_finding_hits": {k: v["count"] for k, v in ctx.known_hits.items()},
         "distribution": ctx.distribution,
         "build_seconds": {k: round(v, 1) for k, v in b.seconds.items()},
